@@ -83,6 +83,11 @@ var deanchored = []string{
 	"(*" + modulePath + "/internal/server.ErrorPageMiddleware).getTemplate",
 	"(*" + modulePath + "/internal/server.ErrorPageMiddleware).writeErrorWithoutTemplate",
 	"(*" + modulePath + "/internal/server.RequestIDMiddleware).generateID",
+	"(*" + modulePath + "/internal/server.LoggingMiddleware).retrieveCustomHeaders",
+	"(*" + modulePath + "/internal/server.Target).isRequestEntityTooLarge",
+	"(*" + modulePath + "/internal/server.Target).isGatewayTimeout",
+	"(*" + modulePath + "/internal/server.Target).isClientCancellation",
+	"(*" + modulePath + "/internal/server.Target).isDraining",
 }
 
 // inlineSeq numbers expansions across all rounds of one run (labels and temporaries must stay unique when a later round
